@@ -57,6 +57,39 @@ func checkC11(c *Ctx) {
 	c.R.Floor("state-changing calls in the accept path (session lookup/creation, start)", ne, 3)
 	auth := nodeM(mMethod(pkgAuth, "Manager", "Authenticate"))
 	getc := nodeM(mFunc(pkgService, "getConnectMessage"))
+	// the steps of reading the CONNECT: the helper that reads and decodes it, or - when that is written out in the
+	// accept function - the framing read and the Decode call; the CONNECT is decoded when none of them failed
+	decodeAtoms := []string{atomConnDecodeErr}
+	if len(nodesMatching(g, getc)) == 0 {
+		getc = nodeM(mMethod(pkgMessage, "ConnectMessage", "Decode"))
+		decodeAtoms = []string{"err:service.getMessageBuffer", "err:ConnectMessage.Decode"}
+	}
+	decodeOK := func(as Assume) Assume {
+		out := Assume{}
+		for k, v := range as {
+			out[k] = v
+		}
+		for _, a := range decodeAtoms {
+			out[a] = false
+		}
+		return out
+	}
+	// the decode step failed: each way it can fail, the steps before it having succeeded
+	decodeFailed := func(as Assume) []Assume {
+		var outs []Assume
+		for i, a := range decodeAtoms {
+			out := Assume{}
+			for k, v := range as {
+				out[k] = v
+			}
+			for _, b := range decodeAtoms[:i] {
+				out[b] = false
+			}
+			out[a] = true
+			outs = append(outs, out)
+		}
+		return outs
+	}
 	// P11: effects only after decode and authentication succeeded
 	for _, x := range []struct {
 		name string
@@ -70,7 +103,17 @@ func checkC11(c *Ctx) {
 		c.precedes(ruleP11, "accept:"+x.name+"-before-any-effect", g, x.m, effects, nil,
 			"every session / topic / start call is preceded by the "+x.name,
 			"a state-changing call is reachable before the "+x.name+": "+x.why+" touches sessions, subscriptions or starts goroutines")
-		if p := reach(g, entry, nil, effects, Assume{x.atom: true}); p != nil {
+		var p []paths.Node
+		if x.atom == atomConnDecodeErr {
+			for _, as := range decodeFailed(Assume{}) {
+				if q := reach(g, entry, nil, effects, as); q != nil {
+					p = q
+				}
+			}
+		} else {
+			p = reach(g, entry, nil, effects, Assume{x.atom: true})
+		}
+		if p != nil {
 			c.R.Bad(ruleP11, "accept:no-effect-after-failed-"+x.name, pos, "after a failed "+x.name+" a state-changing call is still reachable: "+x.why+" has an effect on sessions or subscriptions", c.witness(g, p)...)
 		} else {
 			c.R.Ok(ruleP11, "accept:no-effect-after-failed-"+x.name, pos, "no state-changing call is reachable once the "+x.name+" failed")
@@ -108,10 +151,12 @@ func checkC11(c *Ctx) {
 		as   Assume
 		code int64
 	}
+	// an error that carries a CONNACK code comes from the decoder (the last of the decode steps)
+	codeScen := decodeFailed(Assume{"nonnil:c": true, "type:Conn": true, "type:ConnackCode": true})
 	for _, s := range []scen{
-		{"decode-error-with-connack-code", Assume{"nonnil:c": true, "type:Conn": true, atomConnDecodeErr: true, "type:ConnackCode": true}, -1},
-		{"authentication-failure", Assume{"nonnil:c": true, "type:Conn": true, atomConnDecodeErr: false, atomAuthErr: true}, 4},
-		{"accepted", Assume{"nonnil:c": true, "type:Conn": true, atomConnDecodeErr: false, atomAuthErr: false, "err:*": false}, 0},
+		{"decode-error-with-connack-code", codeScen[len(codeScen)-1], -1},
+		{"authentication-failure", decodeOK(Assume{"nonnil:c": true, "type:Conn": true, atomAuthErr: true}), 4},
+		{"accepted", decodeOK(Assume{"nonnil:c": true, "type:Conn": true, atomAuthErr: false, "err:*": false}), 0},
 	} {
 		codeName := fmt.Sprint(s.code)
 		if s.code < 0 {
@@ -136,7 +181,7 @@ func checkC11(c *Ctx) {
 	}
 	// on the accepted path the CONNACK is written before the connection's goroutines start
 	startM := nodeM(mCallee(r.Start))
-	c.precedes(ruleP5, "accept:CONNACK-before-start", g, sockWrite, startM, Assume{atomConnDecodeErr: false, atomAuthErr: false}, "the CONNACK write precedes start", "start is reachable before the CONNACK was written: another packet can overtake the CONNACK")
+	c.precedes(ruleP5, "accept:CONNACK-before-start", g, sockWrite, startM, decodeOK(Assume{atomAuthErr: false}), "the CONNACK write precedes start", "start is reachable before the CONNACK was written: another packet can overtake the CONNACK")
 	c.closeOnRefusal(fn)
 	c.authManagerDelegates()
 	c.connectValidation()
